@@ -33,6 +33,7 @@ type Plan struct {
 	Repeat   int               `json:"repeat"`
 	Async    []int             `json:"async"`
 	Latency  []int             `json:"latency"`
+	Yields   bool              `json:"yields"`
 }
 
 type Event struct {
@@ -125,6 +126,8 @@ type Built struct {
 	TypeOf map[string]spec.TypeID // not used
 	CLI    []pipe.Result
 	helperT map[spec.TypeID]types.Type
+	bandOrig map[string]string // emitted files before yield instrumentation
+	Yields   map[int]string    // yield id -> description (when instrumented)
 }
 
 func (b *Built) Close() {
